@@ -62,7 +62,8 @@ pub fn check_input(data: &[u8], pw: &[u8], what: &str, extra: &Value) -> Result<
             // confirm with four times the budget before calling it a hang
             reply = match isolate::request(&header, data, Duration::from_secs(TIMEOUT_S * 4)) {
                 Reply::Timeout { seconds } => Reply::Timeout { seconds },
-                _other => return Err(Failure::new("harness-inconclusive-slow", format!("{}: a walk exceeded {} s once but finished within {} s on retry (slow, not a hang)", name, TIMEOUT_S, TIMEOUT_S * 4), json!({}))),
+                Reply::Ok(_) => return Err(Failure::new("harness-inconclusive-slow", format!("{}: a walk exceeded {} s once but finished within {} s on retry (slow, not a hang)", name, TIMEOUT_S, TIMEOUT_S * 4), json!({}))),
+                died => died,
             };
         }
         match reply {
